@@ -473,8 +473,13 @@ where
 
             Submission::Tombstone { tombstone, stats } => self.tombstone_infos.push(TombstoneInfo { tombstone, stats }),
             Submission::Reinsertion { reinsertion } => {
-                // Skip reinsertion if the entry is not in the indexer.
-                if self.indexer.get(reinsertion.hash).is_some() {
+                // Skip reinsertion if the entry is not in the indexer, or if the indexer points to another (newer) version
+                // of the key: re-inserting a superseded copy could make it visible again once the newer one is gone.
+                if self
+                    .indexer
+                    .get(reinsertion.hash)
+                    .is_some_and(|addr| addr.sequence == reinsertion.sequence)
+                {
                     report(self.buffer.as_mut().unwrap().push_slice(
                         &reinsertion.slice[..reinsertion.len],
                         reinsertion.hash,
